@@ -844,12 +844,11 @@ def n1(ctx):
     d = arm_descriptors(prog, f)
     for kind in DICT_KINDS:
         rets = [e for e in d[kind].events if e[0] == 'return']
-        txt = rets[0][1].text(8) if rets else ''
-        w = 'node_data' if kind != 'DefaultDict' else 'TupleGetItem(root.node_data, 1)'
-        ok = 'Py_ID_copy' in txt and ('node_data' in txt) and (('TupleGetItem' in txt) == (kind == 'DefaultDict'))
-        ctx.check('Entries/%s' % kind, ok,
+        cls = d[kind].w.cls_of(rets[0][1].kids[0]) if rets and rets[0][1].kids else None
+        want = 'COPYOF(SPEC.node_data)' if kind != 'DefaultDict' else 'COPYOF(SPEC.node_data[1])'
+        ctx.check('Entries/%s' % kind, cls == want,
                   'entries() of a %s is a copy of its key list' % kind,
-                  'entries() of a %s returns %s' % (kind, txt[:80]), f.loc)
+                  'entries() of a %s returns %s, expected %s' % (kind, cls, want), f.loc)
     for kind in SEQ_KINDS + ['Custom']:
         fills = [e for e in d[kind].events if e[0] == 'loop']
         ok = any(c.callee_name() == 'ListSetItem' and 'int_' in c.text(5)
@@ -860,11 +859,10 @@ def n1(ctx):
     dg = arm_descriptors(prog, g)
     for kind in DICT_KINDS:
         rets = [e for e in dg[kind].events if e[0] == 'return']
-        txt = rets[0][1].text(8) if rets else ''
-        ok = 'ListGetItem' in txt and 'node_data' in txt and 'index' in txt and \
-            (('TupleGetItemAs' in txt) == (kind == 'DefaultDict'))
-        ctx.check('Entry/%s' % kind, ok, 'entry(i) of a %s is key i of its key list' % kind,
-                  'entry(i) of a %s returns %s' % (kind, txt[:80]), g.loc)
+        cls = dg[kind].w.cls_of(rets[0][1].kids[0]) if rets and rets[0][1].kids else None
+        want = 'SPEC.node_data[i]' if kind != 'DefaultDict' else 'SPEC.node_data[1][i]'
+        ctx.check('Entry/%s' % kind, cls == want, 'entry(i) of a %s is key i of its key list' % kind,
+                  'entry(i) of a %s returns %s, expected %s' % (kind, cls, want), g.loc)
     for kind in SEQ_KINDS + ['Custom']:
         rets = [e for e in dg[kind].events if e[0] == 'return']
         txt = rets[0][1].text(6) if rets else ''
